@@ -148,9 +148,13 @@ func NoReturn(info *types.Info) func(call *ast.CallExpr) bool {
 	}
 }
 
+// DefaultMaxVisits is the per-path visit bound of a block (quick: 2 = every loop body at most once
+// more; thorough: 3 = paths that run a loop body twice are enumerated too).
+var DefaultMaxVisits = 2
+
 // NewWalker builds the CFG of body.
 func NewWalker(info *types.Info, body *ast.BlockStmt) *Walker {
-	w := &Walker{Info: info, MaxVisits: 2, MaxPaths: 200000, rangeVars: map[ast.Node]bool{}, switchOf: map[ast.Stmt]*ast.SwitchStmt{}}
+	w := &Walker{Info: info, MaxVisits: DefaultMaxVisits, MaxPaths: 200000, rangeVars: map[ast.Node]bool{}, switchOf: map[ast.Stmt]*ast.SwitchStmt{}}
 	w.G = cfg.New(body, NoReturn(info))
 	ast.Inspect(body, func(n ast.Node) bool {
 		if sw, ok := n.(*ast.SwitchStmt); ok {
